@@ -114,6 +114,75 @@ def gen_history(rng):
 
 ODD_ROOT_ENTRIES = ["+7", "-1", "-7", "1_0", " 8", "9 ", "7\n", "0x10", "1e1", "7.0", "+0", "-0", "0b1"]
 
+# ---- the procfs root holds more than PID directories ------------------------------------------------
+# The kernel's own non-PID entries, and whatever a foreign / bind-mounted / restored procfs root carries. A name is a PID
+# only if it is a plain ASCII decimal number; "digits" of other scripts, superscripts, numerals, names that are not even
+# valid UTF-8 are no processes. Names are kept the way os.fsdecode() gives them (UTF-8 on disk; listing the root with a
+# bytes path gives those bytes, with a str path the surrogateescape'd str) - the simulated kernel's listdir does just that.
+KERNEL_ROOT_NAMES = ["thread-self", "sys", "bus", "fs", "irq", "tty", "driver", "acpi", "scsi", "kmsg", "kcore", "keys",
+                     "1-1", ".7", "lost+found", "dynamic_debug"]
+DECIMAL_SCRIPTS = {"arabic_indic": 0x0660, "ext_arabic_indic": 0x06F0, "nko": 0x07C0, "devanagari": 0x0966, "bengali": 0x09E6,
+                   "thai": 0x0E50, "fullwidth": 0xFF10, "math_bold": 0x1D7CE}      # category Nd: int() reads them
+OTHER_DIGITS = {"superscript": "\u2070\u00b9\u00b2\u00b3\u2074\u2075\u2076\u2077\u2078\u2079",
+                "subscript": "\u2080\u2081\u2082\u2083\u2084\u2085\u2086\u2087\u2088\u2089",
+                "circled": "\u24ea\u2460\u2461\u2462\u2463\u2464\u2465\u2466\u2467\u2468"}     # str.isdigit() only: int() refuses
+NUMERALS_ONLY = ["\u00bd", "\u2166", "\u4e03", "\u3007", "\u0bf0", "\u2189"]          # str.isnumeric() only
+UNDECODABLE = [b"\xff7", b"7\xb2", b"\xb2", b"\xb9\xb0", b"\xd9", b"1\xd9\xa3\xff"]      # not UTF-8 (latin-1 superscripts, cut sequences)
+
+
+def digit_like(n, style):
+    """The number n written so that it looks like a PID directory to a lenient reader, without being one."""
+    txt = str(n)
+    if style in DECIMAL_SCRIPTS:
+        return "".join(chr(DECIMAL_SCRIPTS[style] + int(c)) for c in txt)
+    if style in OTHER_DIGITS:
+        return "".join(OTHER_DIGITS[style][int(c)] for c in txt)
+    if style == "mixed":                      # ASCII digits with one foreign digit among them
+        return chr(DECIMAL_SCRIPTS["arabic_indic"] + int(txt[0])) + txt[1:] if len(txt) > 1 else txt + "\u0660"
+    raise ValueError(style)
+
+
+def gen_root_population(rng, nops, numbers):
+    """[(name, reading, appears_at)]: non-PID entries of the procfs root. `reading` = the number a lenient reader would take
+    the name for (None: it could only choke on it); appears_at = -1 (there from the start) or the index of the op before
+    which the entry shows up."""
+    out, names = [], set()
+    for _ in range(rng.randrange(3, 10)):
+        r = rng.random()
+        reading = None
+        if r < 0.40:
+            name = digit_like(rng.choice(numbers), rng.choice(sorted(DECIMAL_SCRIPTS) + ["mixed"]))
+            if name.isascii():
+                continue
+            reading = int(name)               # (int() knows every script's decimal digits)
+            if len(name) > 1 and rng.random() < 0.1:
+                reading = None
+                name = name[0] + rng.choice(["_", " ", "+", "a", "\u066b", "\u200f"]) + name[1:]
+        elif r < 0.52:
+            name = digit_like(rng.choice(numbers), rng.choice(sorted(OTHER_DIGITS)))
+        elif r < 0.60:
+            name = rng.choice(NUMERALS_ONLY) * rng.randrange(1, 3)
+        elif r < 0.70:
+            name = os.fsdecode(rng.choice(UNDECODABLE))
+        elif r < 0.85:
+            n = rng.choice(numbers)
+            name = rng.choice(["%da", "+%d", " %d", "%d ", "a%d", "%d_000", "%d.", "-%d", "%d\t", "0x%d", "%d\u00a0", "\ufeff%d"]) % n
+        else:
+            name = rng.choice(KERNEL_ROOT_NAMES)
+        if name in names or name.isdigit() and name.isascii():
+            continue
+        names.add(name)
+        out.append((name, reading, -1 if rng.random() < 0.6 else rng.randrange(0, max(1, nops))))
+    return out
+
+
+def _names_entry(msg, population):
+    """Does an error message quote one of the root's non-PID names (as str or as bytes)?"""
+    for name, _r, _a in population:
+        if not name.isascii() and (name in msg or repr(name)[1:-1] in msg or repr(os.fsencode(name))[2:-1] in msg):
+            return True
+    return False
+
 
 def run_history(hist, acc):
     env = setup()
@@ -122,6 +191,23 @@ def run_history(hist, acc):
     viols = []
     nontrivial = False
     ctx = f"history={hist}"
+    population = []       # generated non-PID entries of the procfs root: (name, reading, appears_at)
+    present = []
+
+    def show_entries(upto):
+        for ent in population:
+            if ent[2] <= upto and ent not in present:
+                present.append(ent)
+                w.t.rootfiles[ent[0] + "/x" if len(present) % 3 else ent[0]] = b""
+
+    def root_qual(msg=None, numbers=None):
+        """qualifier for a violation that the root's non-PID entries explain: an error quoting one of their names, or wrong
+        numbers that are exactly what a lenient reader makes of them"""
+        if msg is not None and _names_entry(msg, present):
+            return ":non_pid_root_entry_parsed_as_number"
+        if numbers and all(any(r == n for _n, r, _a in present) for n in numbers):
+            return ":non_pid_root_entry_taken_for_pid"
+        return ""
     if harness.chash(hist)[-1] in "0123":
         # the procfs root holds more than PID directories; what is not a plain decimal number is no process, however much it
         # looks like one to int()
@@ -129,6 +215,13 @@ def run_history(hist, acc):
             w.t.rootfiles[name + "/x"] = b""
         acc.count("histories_with_number_like_entries_in_the_procfs_root")
         ctx += f" root_entries={ODD_ROOT_ENTRIES}"
+        # ... and a generated population of other non-PID entries (derived from the history, so a replay meets the same),
+        # some of them appearing while the history runs
+        population = gen_root_population(harness.rng_for(0, "c04root", harness.chash(hist)), len(hist), [1, 2, 7, 8, 9, 10, 11, 100, 101, 102, 55, 300, 99999, 0, 12])
+        acc.count("non_pid_root_entries_generated", len(population))
+        acc.count("non_pid_root_entries_appearing_mid_history", sum(1 for e in population if e[2] >= 0))
+        acc.count("non_pid_root_entries_digits_of_another_script", sum(1 for e in population if e[1] is not None))
+        ctx += f" generated_root_entries={[(ascii(n), r, a) for n, r, a in population]}"
     model = {}            # pid -> (object, inc) as the statement's cache
     ever = {}             # pid -> list of objects ever yielded
     flagged = set()       # pids flagged recycled by is_running() since the last iteration
@@ -162,6 +255,7 @@ def run_history(hist, acc):
                 w.apply(("vanish", op[1]))
             w.apply(("spawn", op[1], False))
 
+    show_entries(-1)
     try:
         w.__enter__()
     except Exception as e:  # noqa: BLE001
@@ -170,19 +264,30 @@ def run_history(hist, acc):
             w.__exit__(None, None, None)
         except Exception:  # noqa: BLE001
             pass
-        acc.case(dict(hist=hist), True, [(f"process_iter_raised:{type(e).__name__}:first_pass", ctx + f" {e!r}")])
+        acc.case(dict(hist=hist), True, [(f"process_iter_raised:{type(e).__name__}:first_pass" + root_qual(str(e)), ctx + f" {e!r}")])
         return
     with contextlib.ExitStack() as _stack:
         _stack.push(w.__exit__)
         for idx, op in enumerate(hist):
             k = op[0]
+            if population:
+                show_entries(idx)
             if k in ("spawn", "exit", "reap", "vanish", "thread", "respawn", "otheruser"):
                 table_op(op)
             elif k == "pids":
                 rec = w.apply(("pids",))
                 acc.count("pids_checked")
                 if rec["res"] != ("ok", rec["model"]):
-                    viols.append(("pids_wrong", ctx + f" op#{idx} got={rec['res']} want={rec['model']}"))
+                    mech = "pids_wrong"
+                    if present and rec["res"][0] != "ok":
+                        mech += root_qual(str(rec["res"][1]))
+                    elif present and isinstance(rec["res"][1], list):
+                        surplus = list(rec["res"][1])
+                        for n in rec["model"]:
+                            if n in surplus:
+                                surplus.remove(n)
+                        mech += root_qual(None, surplus)
+                    viols.append((mech, ctx + f" op#{idx} got={rec['res']} want={rec['model']}"))
             elif k == "pidex":
                 rec = w.apply(("pidex", op[1]))
                 acc.count("pid_exists_checked")
@@ -191,9 +296,10 @@ def run_history(hist, acc):
                     if op[1] >= 2**31:
                         mech += ":pid_beyond_C_int"
                     if op[1] >= 0:
-                        viols.append((mech, ctx + f" op#{idx} pid_exists({op[1]}) -> {rec['res']}"))
+                        viols.append((mech + root_qual(str(rec["res"][1])), ctx + f" op#{idx} pid_exists({op[1]}) -> {rec['res']}"))
                 elif rec["res"][1] is not rec["model"]:
-                    viols.append(("pid_exists_wrong", ctx + f" op#{idx} pid_exists({op[1]}) -> {rec['res'][1]} want {rec['model']}"))
+                    viols.append(("pid_exists_wrong" + (root_qual(None, [op[1]]) if rec["res"][1] is True else ""),
+                                  ctx + f" op#{idx} pid_exists({op[1]}) -> {rec['res'][1]} want {rec['model']}"))
             elif k == "clear":
                 w.apply(("clear",))
                 nontrivial = True
@@ -263,7 +369,7 @@ def run_history(hist, acc):
                 except Exception as e:  # noqa: BLE001
                     exc = e
                 if exc is not None:
-                    viols.append((f"process_iter_raised:{type(exc).__name__}", ctx + f" op#{idx} {exc!r}"))
+                    viols.append((f"process_iter_raised:{type(exc).__name__}" + root_qual(str(exc)), ctx + f" op#{idx} {exc!r}"))
                     model.clear()
                     continue
                 gpids = [p.pid for p in got]
@@ -284,7 +390,7 @@ def run_history(hist, acc):
                         viols.append((mech, ctx + f" op#{idx} got={gpids} listed={listed} missing={missing}"))
                     extra = [p for p in gpids if p not in listed and p not in after]
                     if extra:
-                        viols.append(("process_iter_yields_unlisted_pid", ctx + f" op#{idx} got={gpids} listed={listed}"))
+                        viols.append(("process_iter_yields_unlisted_pid" + root_qual(None, extra), ctx + f" op#{idx} got={gpids} listed={listed}"))
                 # eviction at the listing instant
                 for pid in list(model):
                     if pid not in listed:
@@ -661,11 +767,20 @@ def run_pid_exists_faults(acc):
                 acc.case(dict(kind="pid_exists_fault", target=target, how=how, k=k), True, viols)
     # the status file cannot be consulted (refused: hidepid / an LSM; or served without a Tgid line): the documented fall-back is
     # the listing - True exactly for listed PIDs, False for thread ids and free numbers, whatever stat() says about /proc/<n>
+    # ... and the listing is that of the PID directories: other entries of the root, digit-like as they may look, stay out of it
+    roots = [None] + sorted(DECIMAL_SCRIPTS) + sorted(OTHER_DIGITS) + ["mixed", "undecodable"]
     for target, want in ((7, True), (9, True), (100, False), (55, False)):
-        for how in ("EACCES", "EPERM", "EIO", "no_tgid_line"):
+        for root, how in [(r_, h_) for r_ in roots for h_ in ("EACCES", "EPERM", "EIO", "no_tgid_line")]:
             w = world()
             viols = []
             try:
+                entries = []
+                if root is not None:
+                    entries = [os.fsdecode(b"10\xb0")] + [os.fsdecode(n) for n in UNDECODABLE] if root == "undecodable" else \
+                        [digit_like(n, root) for n in (7, 100, 101, 55, 1000)]
+                    for name in entries + KERNEL_ROOT_NAMES[:3]:
+                        w.t.rootfiles[name + "/x"] = b""
+                    acc.count("pid_exists_listing_fallback_with_non_pid_root_entries")
                 if how == "no_tgid_line":
                     for pr_ in w.t.procs.values():
                         pr_.raw_status = lambda p_: b"Name:\tx\nState:\tS (sleeping)\nPid:\t%d\nPPid:\t1\n" % p_.pid
@@ -678,13 +793,16 @@ def run_pid_exists_faults(acc):
                 try:
                     got = ps.pid_exists(target)
                 except Exception as e:  # noqa: BLE001
-                    viols.append((f"pid_exists_exception:{type(e).__name__}:status_file_unusable", f"pid_exists({target}) with {how}: {e!r}"))
+                    viols.append((f"pid_exists_exception:{type(e).__name__}:status_file_unusable" + (":non_pid_root_entry_parsed_as_number" if any(n_ in str(e) for n_ in entries) else ""),
+                                  f"pid_exists({target}) with {how}: {e!r}; non-PID root entries {[ascii(n) for n in entries]}"))
                 else:
                     if got is not want:
-                        viols.append(("pid_exists_wrong:status_file_unusable", f"pid_exists({target}) -> {got!r} want {want} ({how}; listed {sorted(w.t.procs)}, 100 is a thread of 7)"))
+                        viols.append(("pid_exists_wrong:status_file_unusable" + (":non_pid_root_entry_taken_for_pid" if root and got is True else ""),
+                                      f"pid_exists({target}) -> {got!r} want {want} ({how}; listed {sorted(w.t.procs)}, 100 is a thread of 7; "
+                                      f"non-PID root entries {[ascii(n) for n in entries]})"))
             finally:
                 w.__exit__(None, None, None)
-            acc.case(dict(kind="pid_exists_fault", target=target, how=how, k=-1), True, viols)
+            acc.case(dict(kind="pid_exists_fault", target=target, how=how, k=-1, **({"root": root} if root else {})), True, viols)
 
 
 def run_probe_race(acc):
